@@ -195,7 +195,7 @@ def gen_broker_case(rng, stream='valid', n_ops=None, exact=False, fee=None, npf=
             else:
                 ops.append([k])
     return {'kind': 'broker', 'stream': stream + (':exact' if exact else ''),
-            'cfg': {'start': start, 'base': rng.choice(['USD', 'USD', 'GBP', 'EUR']), 'funds': funds, 'fee': fee, 'pre': 1,
+            'cfg': {'start': start, 'base': (rng.choice(['usd', 'Usd', 'gbp', 'eur', 'Eur', 'UsD', 'XYZ', 'JPY', 'USDX']) if rng.random() < 0.04 else rng.choice(['USD', 'USD', 'GBP', 'EUR'])), 'funds': funds, 'fee': fee, 'pre': 1,
                     # the exchange object has its own start argument (the documented hours do not depend on it)
                     'exch_start': (start + rng.choice([86400, 10 * 86400, 400 * 86400, -86400, 3600]) if rng.random() < 0.3 else None),
                     # every order of the case carries the same caller-supplied order id
